@@ -390,7 +390,7 @@ def run_kani_unit(scratch, unit, mem_gb, timeout_scale=1.0):
 
 DOC_RE = re.compile(r"^[ \t]*///.*\n|^[ \t]*//!.*\n", re.M)
 ATTR_DROP_RE = re.compile(
-    r"^[ \t]*#\[(?:must_use|inline|expect|allow|doc|cfg_attr|non_exhaustive|derive|serde|builder|error|from|source)\b[^\n]*\]\s*\n", re.M)
+    r"^[ \t]*#\[(?:must_use|inline|expect|allow|doc|cfg_attr|non_exhaustive|derive|serde|builder|error|from|source|default|deprecated)\b[^\n]*\]\s*\n", re.M)
 # multi-line attributes:  #[expect(\n ... \n)]
 ATTR_ML_RE = re.compile(r"^[ \t]*#\[(?:expect|allow|derive|cfg_attr|must_use|error)\s*\((?:[^\[\]]|\[[^\]]*\])*?\)\]\s*\n", re.M | re.S)
 VIS_RE = re.compile(r"\bpub(?:\((?:crate|super|in [\w:]+)\))?\s+")
@@ -516,14 +516,17 @@ def run_verus_unit(unit, workdir, root=None):
         return res
     # stdout (JSON) and stderr (diagnostics) are interleaved in `out`; the JSON object is the
     # first top-level `{` ... matching `}` block.
-    js = None
-    i = out.find("{\n")
-    if i >= 0:
+    js, jspan = None, (0, 0)
+    for m in re.finditer(r"^\{$", out, re.M):
         try:
-            js, _ = json.JSONDecoder().raw_decode(out[i:])
+            cand, end = json.JSONDecoder().raw_decode(out[m.start():])
         except json.JSONDecodeError:
-            js = None
-    res["raw_tail"] = "\n".join(out.strip().splitlines()[-60:])
+            continue
+        if isinstance(cand, dict) and "verification-results" in cand:
+            js, jspan = cand, (m.start(), m.start() + end)
+            break
+    diag = (out[:jspan[0]] + out[jspan[1]:]).strip()
+    res["raw_tail"] = "\n".join(diag.splitlines()[-60:])
     res["raw"] = out
     if js is None or "verification-results" not in js:
         res["undecided"] = "verus produced no result JSON (extracted text rejected?)\n" + res["raw_tail"]
